@@ -43,7 +43,7 @@ type Case struct {
 	Host  Plat
 	List  []Plat `json:",omitempty"`
 	T, P  Plat
-	Str   string `json:",omitempty"`
+	Str   string  `json:",omitempty"`
 	Perms [][]int `json:",omitempty"`
 }
 
